@@ -260,6 +260,41 @@ func propC14(a *Analysis, r *Registry) {
 			}
 			call := ret.Results[0].(*ssa.Call)
 			arg := fc.Val(call.Common().Args[0])
+			// the walk stops in the first bin whose count exceeds the remaining rank (strictly)
+			func() {
+				l := fc.Ctx.LoopOf(ret.Block())
+				hdr := ret.Block()
+				if l != nil {
+					hdr = l.Header
+				} else {
+					// the return block hangs off the loop: find the loop whose body branches to it
+					for _, lp := range fc.Ctx.Loops() {
+						for _, p := range fc.Ctx.LivePreds(ret.Block()) {
+							if lp.Body[p.Index] {
+								hdr = lp.Header
+							}
+						}
+					}
+				}
+				ids := FindFn(arg, "idx")
+				if len(ids) != 1 {
+					return
+				}
+				e3 := X.EnvFor(fn, "hist", "q")
+				cnt := X.S.atomRF(ids[0].ID)
+				e3.Set("count", cnt, nil)
+				e3.Set("goal", arg.Sub(ids[0].Args[1]).Mul(cnt), nil)
+				// condition from the block that loads the element to the return
+				var from *ssa.BasicBlock
+				for _, p := range fc.Ctx.LivePreds(ret.Block()) {
+					from = p
+				}
+				if from == nil {
+					return
+				}
+				b.Eq("B-C14 formula", name+"/walk-guard", a.W.InstrPos(ret), fc.edgeCond(from, ret.Block()), e3, "goal<count")
+				_ = hdr
+			}()
 			b.EqRF("B-C14 formula", name+"/BinToValue-receiver", a.W.InstrPos(call), fc.Val(call.Common().Value), env.Vars["hist"].RF, "interpolates with the histogram's own BinToValue")
 			// arg = bin + goal/count with count = counts[bin]
 			idxs := FindFn(arg, "idx")
